@@ -360,4 +360,36 @@ theorem popExpired_perm (w : Wheel) (now : Int) (fuel : Nat) :
       simp only [List.cons_append]
       exact ((ih w').cons e).trans (nextExpired_perm w now e w' hn)
 
+/-- with distinct counters `cancel c` leaves exactly the entries of the other armings, each as often as before -/
+theorem cancel_perm (w : Wheel) (c : Nat) (huniq : w.heap.Pairwise (fun a b => a.counter ≠ b.counter)) :
+    (cancel w c).heap.Perm (w.heap.filter (fun x => decide (x.counter ≠ c))) := by
+  cases hm : minIdx w.heap with
+  | none =>
+    have h0 := minIdx_none _ hm
+    have hc : cancel w c = w := by simp only [cancel, hm]
+    rw [hc, h0]; exact List.Perm.refl _
+  | some i =>
+    obtain ⟨e, hg, _⟩ := minIdx_spec _ _ hm
+    obtain ⟨hi, he⟩ := List.getElem?_eq_some_iff.mp hg
+    by_cases hec : e.counter = c
+    · simp only [cancel, hm, hg, hec, if_true]
+      have hp : (e :: w.heap.eraseIdx i).Perm w.heap := he ▸ perm_getElem_eraseIdx _ _ hi
+      have hsym : ∀ {a b : Entry}, a.counter ≠ b.counter → b.counter ≠ a.counter := fun h => Ne.symm h
+      have hu := (hp.symm.pairwise_iff (R := fun a b : Entry => a.counter ≠ b.counter) hsym).mp huniq
+      rw [List.pairwise_cons] at hu
+      have hrest : (w.heap.eraseIdx i).filter (fun x => decide (x.counter ≠ c)) = w.heap.eraseIdx i := by
+        rw [List.filter_eq_self]
+        intro x hx
+        have := hu.1 x hx
+        simp only [decide_eq_true_eq]
+        intro h; exact this (hec.trans h.symm)
+      have hf := (hp.symm.filter (fun x => decide (x.counter ≠ c)))
+      rw [List.filter_cons] at hf
+      simp only [hec, ne_eq, not_true_eq_false, decide_false, Bool.false_eq_true, if_false] at hf
+      simp only [ne_eq] at hrest
+      rw [hrest] at hf
+      exact hf.symm
+    · simp only [cancel, hm, hg, hec, if_false]
+      exact List.Perm.refl _
+
 end Verif.Inv.Wheel
